@@ -25,7 +25,8 @@ Qed.
 (* ---------- the invariant ---------- *)
 Definition ent_ok (tr : list event) (x : entry) : Prop :=
   (e_w x <> None -> e_r x = []) /\                       (* a held write lock excludes readers *)
-  (forall v, e_w x = None -> e_v x = Some v -> In (EvStore (e_k x) v) tr).   (* unlocked entries are consistent *)
+  ((forall t, e_w x <> Some (OwnT t)) ->                 (* unless a Store is filling it, an entry is consistent *)
+   forall v, e_v x = Some v -> In (EvStore (e_k x) v) tr).
 
 Definition thr_ok (en : nat -> entry) (tr : list event) (t : nat) (p : pc) : Prop :=
   match p with
@@ -38,10 +39,10 @@ Definition thr_ok (en : nat -> entry) (tr : list event) (t : nat) (p : pc) : Pro
   | _ => True
   end.
 
-Definition Inv' (en : nat -> entry) (th : nat -> pc) (rw : list nat) (tr : list event) : Prop :=
+Definition Inv' (en : nat -> entry) (th : nat -> pc) (rw : list (list N * nat)) (tr : list event) : Prop :=
   (forall e, ent_ok tr (en e)) /\
   (forall t, thr_ok en tr t (th t)) /\
-  (forall e, In e rw -> e_w (en e) = Some OwnRel) /\
+  (forall k e, In (k, e) rw -> e_w (en e) = Some OwnRel) /\
   hits_ok tr.
 
 Definition Inv (s : state) : Prop := Inv' (ents s) (thr s) (relw s) (trace s).
@@ -98,17 +99,26 @@ Proof.
   apply Nat.eqb_eq in E. now subst.
 Qed.
 
-Lemma In_rem x e l : In x (rem e l) -> In x l /\ x <> e.
-Proof. unfold rem. apply in_remove. Qed.
 Lemma In_rem_keep x e l : In x l -> x <> e -> In x (rem e l).
 Proof. unfold rem. intros. now apply in_in_remove. Qed.
+
+Lemma mem2_In k e l : mem2 k e l = true -> In (k, e) l.
+Proof.
+  unfold mem2, same2. intros H. apply existsb_exists in H. destruct H as ([k' e'] & Hx & E). cbn in E.
+  apply andb_true_iff in E. destruct E as [Ek Ee]. apply list_eqb_eq in Ek. apply Nat.eqb_eq in Ee. now subst.
+Qed.
+Lemma In_rem_e e l k' e' : In (k', e') (rem_e e l) -> In (k', e') l /\ e' <> e.
+Proof.
+  unfold rem_e. intros H. apply filter_In in H. destruct H as [H1 H2]. split; auto. cbn in H2.
+  intros ->. rewrite Nat.eqb_refl in H2. discriminate.
+Qed.
 
 (* generic re-establishment after one entry and one thread changed *)
 Lemma inv_step en th rw tr e x t p tr' rw' :
   Inv' en th rw tr -> grows tr tr' -> hits_ok tr' -> ent_ok tr' x ->
   (forall t', t' <> t -> thr_ok en tr t' (th t') -> thr_ok (upd en e x) tr' t' (th t')) ->
   thr_ok (upd en e x) tr' t p ->
-  (forall e', In e' rw' -> e_w (upd en e x e') = Some OwnRel) ->
+  (forall k' e', In (k', e') rw' -> e_w (upd en e x e') = Some OwnRel) ->
   Inv' (upd en e x) (upd th t p) rw' tr'.
 Proof.
   intros (I1 & I2 & I3 & I4) G Hh Hx Ht Hp Hr. split; [|split; [|split]]; auto.
@@ -132,32 +142,33 @@ Qed.
 Lemma inv_ent en th rw tr e x rw' :
   Inv' en th rw tr -> ent_ok tr x ->
   (forall t', thr_ok en tr t' (th t') -> thr_ok (upd en e x) tr t' (th t')) ->
-  (forall e', In e' rw' -> e_w (upd en e x e') = Some OwnRel) ->
+  (forall k' e', In (k', e') rw' -> e_w (upd en e x e') = Some OwnRel) ->
   Inv' (upd en e x) th rw' tr.
 Proof.
   intros (I1 & I2 & I3 & I4) Hx Ht Hr. split; [|split; [|split]]; auto.
   intros e0. destruct (Nat.eq_dec e0 e) as [->|Hne]; [rewrite upd_same; apply Hx|rewrite upd_other by exact Hne; apply I1].
 Qed.
 
-Lemma relw_keep en rw e x :
-  (forall e', In e' rw -> e_w (en e') = Some OwnRel) -> e_w x = e_w (en e) ->
-  forall e', In e' rw -> e_w (upd en e x e') = Some OwnRel.
+Lemma relw_keep en (rw : list (list N * nat)) e x :
+  (forall k' e', In (k', e') rw -> e_w (en e') = Some OwnRel) -> e_w x = e_w (en e) ->
+  forall k' e', In (k', e') rw -> e_w (upd en e x e') = Some OwnRel.
 Proof.
-  intros H E e' Hin. destruct (Nat.eq_dec e' e) as [->|Hne];
-    [rewrite upd_same, E; auto|rewrite upd_other by exact Hne; auto].
+  intros H E k' e' Hin. destruct (Nat.eq_dec e' e) as [->|Hne];
+    [rewrite upd_same, E; eauto|rewrite upd_other by exact Hne; eauto].
 Qed.
 
-Lemma relw_contra en rw e x o :
-  (forall e', In e' rw -> e_w (en e') = Some OwnRel) -> e_w (en e) = o -> o <> Some OwnRel ->
-  forall e', In e' rw -> e_w (upd en e x e') = Some OwnRel.
+Lemma relw_contra en (rw : list (list N * nat)) e x o :
+  (forall k' e', In (k', e') rw -> e_w (en e') = Some OwnRel) -> e_w (en e) = o -> o <> Some OwnRel ->
+  forall k' e', In (k', e') rw -> e_w (upd en e x e') = Some OwnRel.
 Proof.
-  intros H E Hne e' Hin. destruct (Nat.eq_dec e' e) as [->|Hne2];
-    [exfalso; apply Hne; rewrite <- E; auto|rewrite upd_other by exact Hne2; auto].
+  intros H E Hne k' e' Hin. destruct (Nat.eq_dec e' e) as [->|Hne2];
+    [exfalso; apply Hne; rewrite <- E; eauto|rewrite upd_other by exact Hne2; eauto].
 Qed.
 
 Lemma init_inv : Inv init.
 Proof.
-  unfold Inv, Inv', init; cbn. repeat split; auto; try discriminate; cbn; tauto.
+  unfold Inv, Inv', init; cbn. split; [|split; [|split]]; auto; try tauto.
+  intros e. split; cbn; [tauto|discriminate].
 Qed.
 
 Lemma step_thread_inv s t c s' : Inv s -> step_thread s t c = Some s' -> Inv s'.
@@ -173,7 +184,7 @@ Proof.
     destruct (unlocked (ents s e)) eqn:U; inversion H; subst; cbn. clear H.
     apply unlocked_true in U. destruct U as [Uw Ur].
     apply (inv_step _ _ (relw s) (trace s)); auto.
-    + split; cbn; [auto|discriminate].
+    + split; cbn; [auto|]. intros W. exfalso. apply (W t). reflexivity.
     + intros t' Hne. apply thr_ok_upd_w; auto. rewrite Uw. discriminate.
     + cbn. rewrite upd_same. cbn. cbn in Ht. auto.
     + eapply relw_contra; eauto. discriminate.
@@ -181,7 +192,7 @@ Proof.
     inversion H; subst; cbn. clear H. cbn in Ht. destruct Ht as [Hs Hw].
     assert (Hr : e_r (ents s e) = []) by (apply (I1 e); rewrite Hw; discriminate).
     apply (inv_step _ _ (relw s) (trace s)); auto.
-    + split; cbn; [auto|]. intros v0 E. rewrite Hw in E. discriminate.
+    + split; cbn; [auto|]. intros W. exfalso. apply (W t). exact Hw.
     + intros t' Hne. apply thr_ok_upd_w; auto. rewrite Hw. congruence.
     + cbn. rewrite upd_same. cbn. auto.
     + eapply relw_keep; eauto.
@@ -189,22 +200,25 @@ Proof.
     inversion H; subst; cbn. clear H. cbn in Ht. destruct Ht as (Hs & Hw & Hk).
     assert (Hr : e_r (ents s e) = []) by (apply (I1 e); rewrite Hw; discriminate).
     apply (inv_step _ _ (relw s) (trace s)); auto.
-    + split; cbn; [tauto|]. intros v0 _ E. inversion E; subst. exact Hs.
+    + split; cbn; [tauto|]. intros _ v0 E. inversion E; subst. exact Hs.
     + intros t' Hne. apply thr_ok_upd_w; auto. rewrite Hw. congruence.
     + cbn. trivial.
     + eapply relw_contra; eauto. discriminate.
   - (* SSet *)
-    destruct (find_b k (backend s)); [destruct nx|]; inversion H; subst; cbn; apply (inv_thr _ _ _ (trace s)); cbn; auto.
+    destruct (find_b k (backend s)); [destruct nx|]; inversion H; subst; cbn;
+      apply (inv_thr _ _ _ (trace s)); cbn; auto.
   - (* GLook *)
     destruct (find_b k (backend s)) as [b|]; [destruct (bclk s <? b_exp b)%N|]; inversion H; subst; cbn;
       apply (inv_thr _ _ _ (trace s)); cbn; auto.
   - (* GTry *)
     destruct c as [i|].
-    + destruct (mem e (pend s) || mem e (issued s)); inversion H; subst; cbn. apply (inv_thr _ _ _ (trace s)); cbn; auto.
+    + destruct (mem e (map snd (pend s)) || mem e (issued s)); inversion H; subst; cbn.
+      apply (inv_thr _ _ _ (trace s)); cbn; auto.
     + destruct (e_w (ents s e)) eqn:Ew; inversion H; subst; cbn; clear H.
       * apply (inv_thr _ _ _ (trace s)); cbn; auto.
       * apply (inv_step _ _ (relw s) (trace s)); auto.
-        -- destruct (I1 e) as [A B]. split; cbn; [tauto|]. intros v0 _ E. apply B; auto.
+        -- destruct (I1 e) as [A B]. split; cbn; [tauto|]. intros _ v0 E. apply B; auto.
+           intros t0. rewrite Ew. discriminate.
         -- intros t' Hne. apply (thr_ok_upd_r _ _ _ _ _ t); cbn; auto.
         -- cbn. rewrite upd_same. cbn. auto.
         -- eapply relw_keep; eauto.
@@ -218,13 +232,13 @@ Proof.
     destruct (e_v (ents s e)) as [v|] eqn:Ev; [|discriminate]. injection H as <-. cbn.
     apply (inv_thr _ _ _ (trace s)); cbn; auto.
     destruct (I1 e) as [A B]. rewrite <- Hk. apply B; auto.
-    destruct (e_w (ents s e)) eqn:Ew; auto. exfalso. rewrite A in Hin by discriminate. exact Hin.
+    intros t0 W. rewrite A in Hin by (rewrite W; discriminate). exact Hin.
   - (* GUnlockMiss *)
     inversion H; subst; cbn. clear H.
     apply (inv_step _ _ (relw s) (trace s)); cbn; auto.
     + destruct (I1 e) as [A B]. split; cbn.
       * intros W. rewrite (A W). reflexivity.
-      * intros v0 W E. right. apply B; auto.
+      * intros W v0 E. right. apply B; auto.
     + intros t' Hne. apply (thr_ok_upd_r _ _ _ _ _ t); cbn; auto.
       intros t'' Hne2 Hin. apply In_rem_keep; auto.
     + eapply relw_keep; eauto.
@@ -233,7 +247,7 @@ Proof.
     apply (inv_step _ _ (relw s) (trace s)); cbn; auto.
     + destruct (I1 e) as [A B]. split; cbn.
       * intros W. rewrite (A W). reflexivity.
-      * intros v0 W E. right. apply B; auto.
+      * intros W v0 E. right. apply B; auto.
     + intros t' Hne. apply (thr_ok_upd_r _ _ _ _ _ t); cbn; auto.
       intros t'' Hne2 Hin. apply In_rem_keep; auto.
     + eapply relw_keep; eauto.
@@ -246,24 +260,32 @@ Proof.
   - (* LGet *) inversion H; subst. unfold Inv; cbn. apply (inv_thr _ _ _ (trace s)); cbn; auto. apply I.
   - eapply step_thread_inv; eauto.
   - (* LEvict *) destruct (nth_error (backend s) i); inversion H; subst. exact I.
+  - (* LNotify *) inversion H; subst. exact I.
   - (* LRelLock *)
-    destruct (mem e (pend s) && unlocked (ents s e)) eqn:C; inversion H; subst. clear H.
+    destruct (mem2 k e (pend s) && unlocked (ents s e)) eqn:C; inversion H; subst. clear H.
     apply andb_true_iff in C. destruct C as [_ U]. apply unlocked_true in U. destruct U as [Uw Ur].
     unfold Inv in *; cbn. pose proof I as (I1 & I2 & I3 & I4).
     apply (inv_ent _ _ (relw s)); auto.
-    + split; cbn; [auto|discriminate].
+    + destruct (I1 e) as [A B]. split; cbn; [auto|]. intros _ v0 E. apply B; auto.
+      intros t0. rewrite Uw. discriminate.
     + intros t'. apply thr_ok_upd_w; auto. rewrite Uw. discriminate.
-    + intros e' [<-|Hin]; [rewrite upd_same; reflexivity|].
-      destruct (Nat.eq_dec e' e) as [->|Hne]; [rewrite upd_same; reflexivity|rewrite upd_other by exact Hne; auto].
+    + intros k' e' [E|Hin]; [inversion E; subst; rewrite upd_same; reflexivity|].
+      destruct (Nat.eq_dec e' e) as [->|Hne]; [rewrite upd_same; reflexivity|rewrite upd_other by exact Hne; eauto].
   - (* LRelClear *)
-    destruct (mem e (relw s)) eqn:C; inversion H; subst. clear H. apply mem_In in C.
-    unfold Inv in *; cbn. pose proof I as (I1 & I2 & I3 & I4).
-    assert (Hw : e_w (ents s e) = Some OwnRel) by auto.
+    destruct (mem2 k e (relw s)) eqn:C; [|discriminate]. apply mem2_In in C.
+    unfold Inv in *. pose proof I as (I1 & I2 & I3 & I4).
+    assert (Hw : e_w (ents s e) = Some OwnRel) by eauto.
     assert (Hr : e_r (ents s e) = []) by (apply (I1 e); rewrite Hw; discriminate).
-    apply (inv_ent _ _ (relw s)); auto.
-    + split; cbn; [tauto|discriminate].
-    + intros t'. apply thr_ok_upd_w; auto. rewrite Hw. discriminate.
-    + intros e' Hin. apply In_rem in Hin. destruct Hin as [Hin Hne]. rewrite upd_other by exact Hne. auto.
+    destruct (list_eqb (e_k (ents s e)) k); inversion H; subst; clear H; cbn.
+    + apply (inv_ent _ _ (relw s)); auto.
+      * split; cbn; [tauto|discriminate].
+      * intros t'. apply thr_ok_upd_w; auto. rewrite Hw. discriminate.
+      * intros k' e' Hin. apply In_rem_e in Hin. destruct Hin as [Hin Hne]. rewrite upd_other by exact Hne. eauto.
+    + apply (inv_ent _ _ (relw s)); auto.
+      * destruct (I1 e) as [A B]. split; cbn; [tauto|]. intros _ v0 E. apply B; auto.
+        intros t0. rewrite Hw. discriminate.
+      * intros t'. apply thr_ok_upd_w; auto. rewrite Hw. discriminate.
+      * intros k' e' Hin. apply In_rem_e in Hin. destruct Hin as [Hin Hne]. rewrite upd_other by exact Hne. eauto.
   - (* LRelPut *) destruct (mem e (relc s)); inversion H; subst. exact I.
   - (* LTick *) destruct (now s + d <? bclk s + 1000)%N; inversion H; subst. exact I.
   - (* LSync *) destruct ((bclk s <=? c)%N && (c <=? now s)%N); inversion H; subst. exact I.
@@ -360,15 +382,15 @@ Proof.
   destruct (thr s1 (nthr s)); try (injection H as <-; apply reach_refl).
   destruct (index_b k (backend s1)) as [[i e']|]; [|injection H as <-; apply reach_refl].
   destruct ph as [|[|ph]].
-  - destruct (run [LEvict i; LRelLock e] s1) eqn:R1; [|discriminate].
+  - destruct (run [LEvict i; LRelLock k e] s1) eqn:R1; [|discriminate].
     destruct (drive 8 (nthr s) s2) eqn:D; [|discriminate].
     eapply reach_trans; [eapply reach_run; exact R1|].
     eapply reach_trans; [eapply reach_drive; exact D|]. eapply reach_run; exact H.
-  - destruct (run [LEvict i; LRelLock e; LRelClear e] s1) eqn:R1; [|discriminate].
+  - destruct (run [LEvict i; LRelLock k e; LRelClear k e] s1) eqn:R1; [|discriminate].
     destruct (drive 8 (nthr s) s2) eqn:D; [|discriminate].
     eapply reach_trans; [eapply reach_run; exact R1|].
     eapply reach_trans; [eapply reach_drive; exact D|]. eapply reach_run; exact H.
-  - destruct (run [LEvict i; LRelLock e; LRelClear e; LRelPut e] s1) eqn:R1; [|discriminate].
+  - destruct (run [LEvict i; LRelLock k e; LRelClear k e; LRelPut e] s1) eqn:R1; [|discriminate].
     destruct (big_store k2 v2 3600000 false s2) eqn:B; [|discriminate].
     eapply reach_trans; [eapply reach_run; exact R1|].
     eapply reach_trans; [eapply reach_big_store; exact B|]. eapply reach_drive; exact H.
